@@ -5,6 +5,22 @@ import (
 )
 
 var registry = map[string]*Property{
+	"C03": {
+		Title:      "binary reader",
+		Decided:    "TAB",
+		NotDecided: "x",
+		Technique:  "constant-table extraction from SSA (enum value-set dataflow) compared with embedded Ion 1.0 tables",
+		DesignRef:  "DESIGN.md §3.4, §4 C03",
+		Rules: []Rule{
+			{"TAB-TYPECODE", rules.TabTypecode},
+			{"TAB-NIBBLE", rules.TabNibble},
+			{"TAB-NULLKW", rules.TabNullKW},
+			{"TAB-ESCAPE", rules.TabEscape},
+			{"TAB-KEYWORD", rules.TabKeyword},
+			{"TAB-LSTFIELDS", rules.TabLstFields},
+			{"TAB-TOKEN", rules.TabToken},
+		},
+	},
 	"C18": {
 		Title:      "Independent readers, writers and marshal calls can run concurrently",
 		Decided:    "OWN",
